@@ -48,7 +48,8 @@ from pyrates.frontend.template.abc import AbstractBaseTemplate
 from pyrates.frontend.template.edge import EdgeTemplate
 from pyrates.frontend.template.node import NodeTemplate
 from pyrates.frontend.template.operator import OperatorTemplate
-from pyrates.ir.circuit import get_unique_label, CircuitIR, PyRatesException, PyRatesWarning
+from pyrates.ir.circuit import get_unique_label, CircuitIR, PyRatesException, PyRatesWarning, in_edge_indices, \
+    in_edge_vars
 from pyrates.ir.edge import EdgeIR
 from pyrates.ir.node import clear_ir_caches
 
@@ -780,6 +781,15 @@ class CircuitTemplate(AbstractBaseTemplate):
         if not edge_values:
             edge_values = {}
         scalar_shape = (1,) if vectorize else ()
+
+        # Every application builds a complete intermediate representation from scratch. Drop the caches and label
+        # counters that a previous application (of this or any other template) left behind - otherwise the new nodes
+        # are merged into the vectorized nodes of the previous circuit, operators inherit the equations of an earlier
+        # operator with the same name, and node/edge-operator labels continue counting (`n_num1`, `in_edge_1`).
+        clear_ir_caches()
+        OperatorTemplate.cache.clear()
+        in_edge_indices.clear()
+        in_edge_vars.clear()
 
         # turn nodes from templates into IRs
         ####################################
